@@ -60,16 +60,17 @@ def gen_cases(params, rng, rows_per_w, nrand, widths=(16, 32, 64), bfly=True):
                 for a, b in ((B - 1, B - 1), (B - 1, 0), (0, B - 1), (B // 2, B // 2), (2 * p, 2 * p), (B - 2 * p, 2 * p)):
                     add("bfly:wild arbitrary words (vector body = scalar body, no range assumption)", "bfly", R(), a, b)
             # --- shoup remainder lands in [p, p + x p / B): model-side search for the conditional-subtraction branch
-            hits = 0
-            for it in range(400):
-                x, y = (R(), R()) if it % 2 == 0 else (p - 1 - rng.randrange(64), R())
+            cand = []
+            for it in range(1500):
+                x, y = (R(), R()) if it % 3 == 0 else (p - 1 - rng.randrange(64), R())
                 yp = (y * B) // p
                 q = (x * yp) >> w
                 r = x * y - q * p
-                if r >= p:
-                    add("mulshoup:remainder >= p before the conditional subtraction", "mulmod_shoup", x, y); hits += 1
-                    # the lazy multiply-add at its largest: rop = p-1 (p-2, r-dependent) on top of a remainder >= p
-                    for z in (p - 1, p - 2, (2 * p - 1 - r) % p, (2 * p - r) % p):
-                        add("muladdshoup:rop near p-1 on top of a Shoup remainder >= p (largest lazy sum)", "muladd_shoup", z, x, y)
-                    if hits >= 8: break
+                if r >= p: cand.append((r, x, y))
+            cand.sort(reverse=True)
+            # the LARGEST remainders (the lazy multiply-add then reaches its maximum, close to 2p + p^2/2^w) and a few ordinary ones
+            for r, x, y in cand[:6] + cand[len(cand) // 2: len(cand) // 2 + 2]:
+                add("mulshoup:remainder >= p before the conditional subtraction", "mulmod_shoup", x, y)
+                for z in (p - 1, p - 2, (2 * p - 1 - r) % p, (2 * p - r) % p):
+                    add("muladdshoup:rop near p-1 on top of a Shoup remainder >= p (largest lazy sum)", "muladd_shoup", z, x, y)
     return out
